@@ -406,6 +406,15 @@ class Evaluator(object):
 
     def st_For(self, s, st, frame):
         it = self.ev(s.iter, st, frame)
+        if isinstance(it, tuple) and it and it[0] in ("tuple", "list") and len(it) - 1 <= 4 and not s.orelse and not any(
+                isinstance(n, (ast.Break, ast.Continue)) for b in s.body for n in ast.walk(b)) and not any(isinstance(x, tuple) and x and x[0] == "starred" for x in it[1:]):
+            # a loop over a literal sequence of known length is its unrolling
+            for x in it[1:]:
+                if st.alive is not True:
+                    break
+                self.assign(s.target, x, st, frame, s)
+                self.exec_block(s.body, st, frame)
+            return
         self.run_loop(s, it, s.target, s.body, st, frame, conds=())
         if s.orelse and st.alive is True:
             self.exec_block(s.orelse, st, frame)
@@ -596,15 +605,19 @@ class Evaluator(object):
     def st_Try(self, s, st, frame):
         tid = next(self._ids)
         pre = st.copy()
+        # model: an exception caught by a handler is raised before the body had any effect, so the body's
+        # effects happen only when no handler fires
+        atoms = []
+        for h in s.handlers:
+            en = h.type.id if isinstance(h.type, ast.Name) else None
+            atoms.append(("raised", tid, en))
+        body_lits = [(a, False) for a in atoms]
+        st.guard.extend(body_lits)
         self.exec_block(s.body, st, frame)
         if s.orelse and st.alive is True:
             self.exec_block(s.orelse, st, frame)
-        for h in s.handlers:
+        for h, atom in zip(s.handlers, atoms):
             hs = pre.copy()
-            en = None
-            if isinstance(h.type, ast.Name):
-                en = h.type.id
-            atom = ("raised", tid, en)
             hs.guard.append((atom, True))
             if h.name:
                 hs.locals[h.name] = ("opaque", "exc")
@@ -614,6 +627,7 @@ class Evaluator(object):
                 merged = _merge_states(atom, hs, st)
                 st.locals, st.heap, st.sub = merged.locals, merged.heap, merged.sub
                 st.epoch, st.epoch_all = merged.epoch, merged.epoch_all
+                st.guard = [l for l in st.guard if l != (atom, False)]
             elif hs.alive is True:
                 st.locals, st.heap, st.sub, st.guard, st.alive = hs.locals, hs.heap, hs.sub, hs.guard, True
         if s.finalbody and st.alive is True:
@@ -1490,6 +1504,8 @@ def _merge_guarded_terms(terms):
 def _is_fresh(v):
     """A value created in the current function by a copying pandas operation (not an alias of caller data or heap state)."""
     while isinstance(v, tuple) and v:
+        if v[0] == "ite" and len(v) == 4:
+            return _is_fresh(v[2]) and _is_fresh(v[3])
         if v[0] == "mcall" and v[2] in ("dropna", "copy", "sort_values", "sort_index", "fillna", "reindex", "count", "astype", "diff", "unstack", "stack"):
             return True
         if v[0] == "call" and v[1] in ("pd.DataFrame", "pd.Series", "list", "dict", "sorted"):
